@@ -2,6 +2,7 @@ package c15
 
 import (
 	"bytes"
+	"regexp"
 	"runtime"
 	"runtime/pprof"
 	"sort"
@@ -71,10 +72,50 @@ func (g *group) touchesLib() bool {
 func (g *group) innermostLib() string {
 	for _, f := range g.Frames {
 		if strings.HasPrefix(f.Func, repoPrefix) {
-			return shortFunc(f.Func)
+			return stableName(f.Func, f.Line)
 		}
 	}
 	return ""
+}
+
+var closureNo = regexp.MustCompile(`\.func\d+(\.\d+)*|\.gowrap\d+`)
+
+// stableName names a library function for a finding key: package (from the
+// file's directory) + receiver and method + ".func" for closures. Inlining
+// prefixes ("(*Connection).setupConnection.(*Client).Start.func42.1") and
+// closure numbers are dropped, so the name survives unrelated edits.
+func stableName(fn, fileLine string) string {
+	pkg := "gouroboros"
+	file := fileLine
+	if i := strings.LastIndexByte(file, ':'); i > 0 {
+		file = file[:i]
+	}
+	if i := strings.LastIndexByte(file, '/'); i > 0 {
+		dir := file[:i]
+		if j := strings.LastIndexByte(dir, '/'); j >= 0 {
+			d := dir[j+1:]
+			switch d {
+			case "protocol", "muxer", "connection", "cbor", "ledger", "pipeline":
+				pkg = d
+			default:
+				if strings.Contains(dir, "/protocol/") || strings.Contains(dir, "/ledger/") {
+					pkg = d
+				}
+			}
+		}
+	}
+	tail := fn
+	if i := strings.LastIndexByte(tail, '/'); i >= 0 {
+		tail = tail[i+1:]
+	}
+	if i := strings.IndexByte(tail, '.'); i >= 0 {
+		tail = tail[i+1:]
+	}
+	if i := strings.LastIndex(tail, "(*"); i > 0 {
+		tail = tail[i:]
+	}
+	tail = closureNo.ReplaceAllString(tail, ".func")
+	return pkg + "." + tail
 }
 
 func shortFunc(fn string) string {
